@@ -1205,6 +1205,10 @@ class RouteBuilderValidator(Validator[list[Any]]):
         settings.afi = self.afi
         settings.safi = self.safi
         attributes = AttributeCollection()
+        if self.afi is not None:
+            # the family named by the command is the current one (`ipv4 flow .. dscp ..` was refused as "IPv6 flow"
+            # when the previous command had been an IPv6 route: the tokeniser kept that family)
+            tokeniser.afi = self.afi
 
         # Parse prefix if present (for INET-family routes)
         if self.schema.prefix_parser:
